@@ -187,6 +187,22 @@ Bytes World::make_packet(const J &op)
 			pos += unit;
 		}
 	}
+	if (body == "adler" && len >= 120) {
+		// a pair of incompressible frames of equal length whose first part is identical except for three adjacent bytes changed by
+		// +1, -2, +1 (which leaves an Adler-32 over any stream containing them unchanged) and whose second part differs freely:
+		// the zlib stream of "first part of a + rest of b" inflates and verifies, although nobody sent that frame
+		uint64_t pair = (uint64_t)op.geti("pair");
+		bool vb = op.gets("variant") == "b";
+		size_t cut = len * 55 / 100;
+		p[8] = (uint8_t)(pair >> 8); p[9] = (uint8_t)pair;                        // IP id from the pair, not the serial
+		for (size_t i = 24; i < len; i++) {
+			uint64_t k = i < cut ? pair * 2654435761ull + i / 8 : (pair * 2654435761ull + i / 8) ^ (vb ? 0xb0b0b0b0ull : 0xa0a0a0a0ull);
+			p[i] = (uint8_t)(splitmix64(k) >> (8 * (i % 8)));
+		}
+		for (size_t i = 60; i < 63; i++) p[i] = (uint8_t)(4 + p[i] % 200);         // room for the +1/-2/+1
+		if (vb) { p[60] += 1; p[61] -= 2; p[62] += 1; }
+		return p;
+	}
 	// serial for uniqueness / attribution
 	if (len >= 36) for (int i = 0; i < 8; i++) p[24 + i] = (uint8_t)(ser >> (8 * (7 - i)));
 	if (len >= 40) { p[32] = 'S'; p[33] = 'I'; p[34] = 'M'; p[35] = '!'; }
